@@ -441,6 +441,12 @@ def semantic_mutants(tok, raw, ver):
                                ("sig-extend1", sig + b"\x00"), ("sig-one-byte", sig[:1]), ("sig-der-garbage", b"\x30\x82" + sig[2:]),
                                ("sig-zeros", bytes(len(sig)))):
                     out.append((nm, mk(head + bytes([len(s2) >> 8, len(s2) & 255]) + s2)))
+                if ver >= 3 and len(head) >= 2:
+                    # the same signature under another SignatureAndHashAlgorithm / SignatureScheme label (other key
+                    # types, other hashes, unassigned code points)
+                    for a, b_ in ((4, 3), (5, 3), (8, 7), (8, 8), (8, 4), (8, 9), (2, 2), (1, 1), (6, 1), (4, 1), (0, 0), (255, 255)):
+                        if bytes([a, b_]) != head[-2:]:
+                            out.append(("sigalg-%02x%02x" % (a, b_), mk(head[:-2] + bytes([a, b_, len(sig) >> 8, len(sig) & 255]) + sig)))
                 break
     if tok == "CKE" and len(body) > 2:
         out.append(("cke-empty", mk(b"")))
